@@ -24,6 +24,7 @@ import slimta.cloudstorage     # noqa
 import slimta.bounce           # noqa
 import slimta.relay            # noqa
 import slimta.envelope         # noqa
+import slimta.relay.pipe       # noqa
 
 LAT_RELAY = (0.0, 0.0, 0.001, 0.01, 0.05, 0.3, 2.0)
 BACKENDS = ('dict', 'disk', 'redis', 'cloud', 'cloud+mq')
@@ -386,6 +387,126 @@ def script_relay_class():
     return ScriptRelay
 
 
+def pipe_relay(world, scn, obs):
+    """real PipeRelay (per-recipient or not) over a fake subprocess module
+    whose exit status / output come from the same outcome table as
+    ScriptRelay; an observing subclass records attempts and ground truth"""
+    import re
+    import slimta.relay.pipe as pmod
+    state = {'count': {}, 'bounces': 0, 'cur': {}}
+    mark = re.compile(br'^X-Sim-Msg: (\d+)\r?$', re.M)
+
+    class FakeProc(object):
+        def __init__(self, args):
+            self.args = list(args)
+            self.returncode = None
+            self.pid = 4243
+
+        def communicate(self, stdin=None):
+            m = mark.search(stdin or b'')
+            # a bounce embeds the original's marker in its body: tell them
+            # apart by the top-level header block
+            head = (stdin or b'').split(b'\r\n\r\n', 1)[0]
+            mk = int(m.group(1)) if m and mark.search(head) else None
+            rec = state['cur'].get(mk if mk is not None else 'b')
+            rcpt = None
+            for a in self.args:
+                if rec is not None and a in rec['rcpts']:
+                    rcpt = a
+            if rcpt is None and rec is not None:
+                rcpt = rec['rcpts'][0]
+            spec = rec['spec'] if rec is not None else {'t': 'none'}
+            t = spec['t']
+            if t in ('map', 'seq'):
+                vd = (spec.get('r') or {}).get(rcpt, ['ok', 0])
+                verdict, var = vd[0], vd[1]
+                if verdict == 'none':
+                    verdict = 'ok'
+            elif t in ('temp', 'other'):
+                verdict, var = 'temp', spec.get('v', 0)
+            elif t == 'perm':
+                verdict, var = 'perm', spec.get('v', 0)
+            else:
+                verdict, var = 'ok', 0
+            lat = spec.get('lat', 0.0)
+            if lat:
+                gevent.sleep(lat)
+            if rec is not None:
+                rec['truth'][rcpt] = verdict
+            if verdict == 'ok':
+                self.returncode = 0
+                return b'', b''
+            self.returncode = 75 if verdict == 'temp' else 1
+            txt = ('4.%d.0 temporary failure v%d' if verdict == 'temp' else
+                   '5.%d.0 permanent failure v%d') % (var % 8, var)
+            if rec is not None:
+                rec['replies'][rcpt] = ('450' if verdict == 'temp' else '550',
+                                        txt)
+            return b'', (txt + '\n').encode()
+
+    class FakeSubprocess(object):
+        PIPE = -1
+
+        def Popen(self, args, **kw):
+            return FakeProc(args)
+
+    pmod.subprocess = FakeSubprocess()
+
+    class ObsPipe(pmod.PipeRelay):
+        per_recipient = scn.get('relay') != 'pipe1'
+
+        def attempt(self, envelope, attempts):
+            w = world
+            k = marker_of(envelope)
+            if k is None:
+                b = state['bounces']
+                state['bounces'] += 1
+                lst = scn.get('bounce_outcomes') or []
+                mk, n = ('b', b), b
+                spec = lst[b] if b < len(lst) else {'t': 'none'}
+                key = 'b'
+            else:
+                n = state['count'].get(k, 0)
+                state['count'][k] = n + 1
+                lst = (scn.get('outcomes') or {}).get(str(k)) or []
+                spec = lst[n] if n < len(lst) else {'t': 'none'}
+                mk, key = k, k
+            try:
+                hd, bd = envelope.flatten()
+                content = hashlib.sha1(hd + bd).hexdigest()
+            except Exception as e:
+                content = 'unflattenable:%s' % type(e).__name__
+            rec = {'k': mk, 'n': n, 'attempts_arg': attempts,
+                   'rcpts': list(envelope.recipients), 'content': content,
+                   't0': w.loop._now, 't1': None, 'truth': {},
+                   'start_seq': w.counter('attseq'), 'end_seq': None,
+                   'shape': 'map' if self.per_recipient else spec['t'],
+                   'sender': envelope.sender, 'replies': {}, 'spec': spec}
+            if not self.per_recipient and spec['t'] in ('map', 'seq'):
+                rec['shape'] = 'temp'
+            obs['attempts'].append(rec)
+            state['cur'][key] = rec
+            w.log('ATT', str(mk), n, 'start', len(rec['rcpts']))
+            try:
+                return pmod.PipeRelay.attempt(self, envelope, attempts)
+            finally:
+                if not self.per_recipient:
+                    # one process decides for the whole message
+                    v0 = rec['truth'].get(rec['rcpts'][0], 'ok')
+                    rp = rec['replies'].get(rec['rcpts'][0])
+                    for r in rec['rcpts']:
+                        rec['truth'][r] = v0
+                        if rp:
+                            rec['replies'][r] = rp
+                    rec['shape'] = {'ok': 'none', 'temp': 'temp',
+                                    'perm': 'perm'}[v0]
+                rec['t1'] = w.loop._now
+                rec['end_seq'] = w.counter('attseq')
+                w.log('ATT', str(mk), n, 'end')
+
+    return ObsPipe(['deliver', '-f', '{sender}', '-d', '{recipient}'])
+
+
 def obs_queue_class():
     from slimta.queue import Queue
 
@@ -427,8 +548,12 @@ def build(world, scn, obs, fs=None, counts=None, bounces=0):
     sub = Substrate(world, scn, fs=fs)
     OS = observed_store_class()
     store = OS(sub.new_storage(), obs, world, 's')
-    relay = script_relay_class()(world, scn, obs, counts=counts,
-                                 bounces=bounces)
+    if scn.get('relay') in ('pipe', 'pipe1'):
+        world.probe('relay:' + scn['relay'])
+        relay = pipe_relay(world, scn, obs)
+    else:
+        relay = script_relay_class()(world, scn, obs, counts=counts,
+                                     bounces=bounces)
     Q = obs_queue_class()
     table = scn['backoff']
 
